@@ -549,6 +549,9 @@ class SP(Robot):
             #self.IK(top_plate_pos = self.getBottomT() @ tm([0, 0, self._nominal_height, 0, 0, 0]))
             #self.FK(L, protect = True)
             self._fixUpsideDown()
+            #Publish the repaired plates: joints, lengths and relative transform follow from them
+            bottom, top = self.getBottomT(), self.getTopT()
+            self._IKHelper(top, bottom)
         self._current_plate_transform_local = fsr.globalToLocal(bottom, top)
         #self._undoPlateTransform(bottom, top)
 
